@@ -50,6 +50,9 @@ type Delivery struct {
 	Msg     *nats.Msg
 	Seq     uint64 // sequence number at delivery (0 while pending)
 	Dropped string // "" or reason: "slow", "lost", "closed", "unsub"
+	// Buffered is the number of messages the subscription's channel held
+	// when this one was dropped as "slow"
+	Buffered int
 }
 
 // Conn is the simulated connection.
@@ -472,6 +475,7 @@ func (c *Conn) trySend(d *Delivery) {
 		c.Stats.Delivered++
 	default:
 		d.Dropped = "slow"
+		d.Buffered = len(ch)
 		c.Stats.SlowDrops++
 	}
 	c.sendSeq.Add(1)
